@@ -1,5 +1,6 @@
 import Iec.Props.C08
 import Iec.Lemmas.Cli104Life
+import Iec.Lemmas.Srv104LifeLog
 /-
 C18 — Connection lifecycle, accounting and event notifications are consistent.
 
@@ -10,10 +11,11 @@ connections equals the number of open connections; closed connections free their
 stop/destroy closes everything; create/start/stop/destroy in any order releases every
 resource (client: closed/failed exactly once per attempt).
 
-**Partial** (server, threadless mode only).  Theorems on the model: `refused_accept_keeps_counter`, `deactivate_event` /
+**Partial** (server, threadless mode only).  Over every history (`Lemmas/Srv104LifeLog.lean`, frame lemmas for every function
+of the server model): `server_events_follow_grammar`, `server_events_match_state`, `open_connections_is_used_slots`.  Step laws: `refused_accept_keeps_counter`, `deactivate_event` /
 `activate_event` (DEACTIVATED only from started, ACTIVATED only into started: the two
-alternate).  The global statements (event grammar per connection, counter = used slots
-after every tick) are checked on every operation of the correspondence run by the harness
+alternate).  The same global statements (event grammar per connection, counter = used slots
+after every tick) are ALSO checked on every operation of the correspondence run by the harness
 oracle on the real structures, and LeakSanitizer + the simulated HAL's live-object counters
 check create/start/stop/destroy cycles of the episodes (threadless stop + restart: operation `s.restart`, model
 `Iec.Srv104.restart`; threaded server: accounting oracle of harness/locks_dyn.c).
@@ -46,6 +48,73 @@ every operation by the harness oracle. -/
 theorem refused_accept_keeps_counter (s : Slave) (hl : 1 ≤ s.p.maxOpen) (hfull : (s.p.maxOpen : Int) ≤ s.openConnections) :
     (accept s).openConnections = s.openConnections ∧ (accept s).log = s.log := by
   rw [Iec.Props.C08.limit_refuses s hl hfull]; exact ⟨rfl, rfl⟩
+
+/-! ### every history of the server -/
+
+/-- **the event grammar, over every history.** From a freshly created server, after any sequence of ticks (accept, receive,
+STARTDT / STOPDT, time-outs, reaping of ended connections), enqueues and environment events, the events reported for every
+slot have followed, at every moment of the history, the automaton
+`no connection -OPENED-> open -ACTIVATED-> started -DEACTIVATED-> open ...; open | started -CLOSED-> no connection`:
+OPENED exactly once and first, ACTIVATED / DEACTIVATED alternating, CLOSED at most once and nothing after it but the
+OPENED of the next connection in that slot (state 3 = "violated" is absorbing, so it suffices that every prefix avoids it). -/
+theorem server_events_follow_grammar (p : Params) (gs : List (String × List (Bool × List Nat))) (ops : List LOp) (j : Nat)
+    (l1 l2 : List Obs) (hl : (ops.foldl LOp.apply (create p gs)).log = l1 ++ l2) : lifeOf l1 j ≠ 3 := by
+  apply lifeOf_prefix l1 l2 j
+  rw [← hl, run_linv p gs ops j]
+  exact expected_ne_3 _
+
+/-- **the events match the state, over every history**: a slot is in use exactly while its last OPENED has not been
+followed by CLOSED, and the connection in it is STARTED exactly while the last event is ACTIVATED -/
+theorem server_events_match_state (p : Params) (gs : List (String × List (Bool × List Nat))) (ops : List LOp) (j : Nat) :
+    let s := ops.foldl LOp.apply (create p gs)
+    ((s.conn j).isUsed = true ↔ (lifeOf s.log j = 1 ∨ lifeOf s.log j = 2)) ∧
+    ((s.conn j).isUsed = true → ((s.conn j).state = 1 ↔ lifeOf s.log j = 2)) := by
+  intro s
+  have h' : lifeOf s.log j = expected (s.conn j) := run_linv p gs ops j
+  rw [h']
+  unfold expected
+  cases hu : (s.conn j).isUsed
+  · simp
+  · by_cases h1 : (s.conn j).state = 1 <;> simp [h1]
+
+/-- **`CS104_Slave_getOpenConnections` equals the number of slots in use, over every history** -/
+theorem open_connections_is_used_slots (p : Params) (gs : List (String × List (Bool × List Nat))) (ops : List LOp) :
+    (ops.foldl LOp.apply (create p gs)).openConnections = ((ops.foldl LOp.apply (create p gs)).conns.countP (·.isUsed) : Int) :=
+  run_oc p gs ops
+
+/-- non-vacuity of the automaton: a well-formed life of slot 0 ends in "no connection", a second CLOSED is a violation -/
+example : lifeOf [.ev 0 "OPENED", .ev 0 "ACTIVATED", .tx 0 [1], .ev 1 "OPENED", .ev 0 "DEACTIVATED", .ev 0 "CLOSED"] 0 = 0 ∧
+    lifeOf [.ev 0 "OPENED", .ev 0 "CLOSED", .ev 0 "CLOSED"] 0 = 3 ∧ lifeOf [.ev 0 "ACTIVATED"] 0 = 3 := by decide
+
+/-- non-vacuity on a concrete history: a client connects and sends STARTDT act - slot 0 is in use and started, the log
+says OPENED, ACTIVATED, and the counter is 1 -/
+def lenvPending (sk : Sock) : LEnv where
+  f s := { s with pending := s.pending ++ [sk] }
+  len _ := rfl
+  conn _ _ := rfl
+  log _ := rfl
+  oc _ := rfl
+
+def lenvFeed (i : Nat) (bytes : List Nat) : LEnv where
+  f s := s.setConn i { s.conn i with sock := { (s.conn i).sock with chunks := (s.conn i).sock.chunks ++ [bytes] } }
+  len s := setConn_len _ _ _
+  conn s j := by
+    by_cases hj : j = i
+    · subst hj
+      by_cases hl : j < s.conns.length
+      · rw [conn_setConn _ _ _ hl]
+      · have hs : ∀ c, s.conns.set j c = s.conns := fun c => List.set_eq_of_length_le (Nat.le_of_not_lt hl)
+        have : ∀ c, (s.setConn j c).conn j = s.conn j := by intro c; unfold Slave.conn Slave.setConn; simp only [hs]
+        rw [this]
+    · rw [conn_setConn_ne _ _ _ _ hj]
+  log _ := rfl
+  oc _ := rfl
+
+def lifeDemoParams : Params := { k := 2, w := 1, t0 := 10, t1 := 15, t2 := 10, t3 := 20, mode := 0, maxOpen := 0, lowQ := 4, highQ := 4, asduHdr := 6, replies := 0, nSlots := 2 }
+def lifeDemoOps : List LOp := [.env (lenvPending {}), .tick, .env (lenvFeed 0 [0x68, 4, 7, 0, 0, 0]), .tick]
+example : let s := lifeDemoOps.foldl LOp.apply (create lifeDemoParams [])
+    (s.conn 0).isUsed = true ∧ (s.conn 0).state = 1 ∧ lifeOf s.log 0 = 2 ∧ s.openConnections = 1 ∧
+    s.log.map (fun o => match o with | .ev _ w => w | .tx _ _ => "tx" | _ => "?") = ["OPENED", "ACTIVATED", "tx"] := by decide
 
 /-! ### client: closed / failed exactly once per attempt -/
 section Client
